@@ -194,24 +194,26 @@ Section Reader.
       { induction subs' as [|b0 r IH]; intros j0 Hsuf Hrg; cbn [length iota map]; constructor.
         - apply Forall_cons_iff in Hrg. destruct Hrg as [[Hge _] _].
           assert (Hb0 : nth_error (lk_subs l) j0 = Some b0) by (specialize (Hsuf 0%nat b0 eq_refl); now rewrite Nat.add_0_r in Hsuf).
-          destruct (Hsub j0 b0 Hb0) as [S HS].
+          destruct (Hsub j0 b0 Hb0) as [Sp HS].
           unfold spos in *. rewrite (Hnoext (N.of_nat j0)), HS in *. cbn [pos_or0] in *.
           destruct (at_pos _ _ _ _ HS) as (c' & bc' & Hc' & Hb' & Hst').
           rewrite (sub_content i l (N.of_nat j0) b0 c' bc' Hl ltac:(now rewrite Nnat.Nat2N.id) Hc' Hb') in Hst'.
-          replace (P + T + (S - T)) with (P + S) by lia. exact Hst'.
+          replace (P + T + (Sp - T)) with (P + Sp) by lia. exact Hst'.
         - apply Forall_cons_iff in Hrg. destruct Hrg as [_ Hrg].
           replace (N.of_nat j0 + 1) with (N.of_nat (S j0)) in * by lia.
           apply IH; [|exact Hrg]. intros m b Hm'. specialize (Hsuf (S m) b Hm').
           now replace (S j0 + m)%nat with (j0 + S m)%nat by lia. }
       apply (G (lk_subs l) 0%nat); [intros m b Hm'; exact Hm'|exact Hrange].
     - (* replaced: every subtable behind an extension record *)
-      destruct (lk_subs l) as [|b00 subs0] eqn:Esubs; [congruence|]. rewrite <- Esubs in *.
-      assert (Hb00 : nth_error (lk_subs l) 0 = Some b00) by (rewrite Esubs; reflexivity).
+      assert (Hb00 : exists b00, nth_error (lk_subs l) 0 = Some b00)
+        by (destruct (lk_subs l); [congruence|cbn; eauto]).
+      destruct Hb00 as [b00 Hb00].
+      assert (Hns0 : nsubs l <> 0) by (unfold nsubs; destruct (lk_subs l); [congruence|cbn [length]; lia]).
       destruct (Hext 0%nat b00 Hb00) as (E0 & S0 & HE0 & _ & _).
       assert (Hr : replaced = true) by (unfold replaced; change (N.of_nat 0) with 0 in HE0; now rewrite HE0).
       rewrite Hr in Hrepl. cbn [andb] in Hrepl.
       unfold ty. rewrite Hr. rewrite N.eqb_refl.
-      replace (nsubs l =? 0) with false by (unfold nsubs; rewrite Esubs; cbn [length]; lia).
+      replace (nsubs l =? 0) with false by lia.
       cbn [negb andb].
       (* all extension records *)
       assert (G : forall subs' j0,
@@ -227,37 +229,37 @@ Section Reader.
         - exists [], []. cbn [read_exts resolve_exts]. repeat split; constructor.
         - apply Forall_cons_iff in Hrg. destruct Hrg as [[Hge _] Hrg].
           assert (Hb0 : nth_error (lk_subs l) j0 = Some b0) by (specialize (Hsuf 0%nat b0 eq_refl); now rewrite Nat.add_0_r in Hsuf).
-          destruct (Hext j0 b0 Hb0) as (E & S & HE & HS & HES).
+          destruct (Hext j0 b0 Hb0) as (Ep & Sp & HE & HS & HES).
           replace (N.of_nat j0 + 1) with (N.of_nat (S j0)) in * by lia.
           destruct (IH (S j0)) as (exts & ps & Hre & Hlen & Hty0 & Hres & Hps); [|exact Hrg|].
           { intros m b Hm'. specialize (Hsuf (S m) b Hm').
             now replace (S j0 + m)%nat with (j0 + S m)%nat by lia. }
-          assert (Hsp : spos i (N.of_nat j0) = E) by (unfold spos; now rewrite HE).
+          assert (Hsp : spos i (N.of_nat j0) = Ep) by (unfold spos; now rewrite HE).
           rewrite Hsp in *.
-          (* the extension record at E *)
+          (* the extension record at Ep *)
           destruct (at_pos _ _ _ _ HE) as (ce & bce & Hce & Hbe & [reste Hste]).
           rewrite (ext_content i l (N.of_nat j0) ce bce Hl Hce Hbe) in Hste.
           rewrite HE, HS in Hste. cbn [pos_or0] in Hste.
           pose proof (pos_lt _ _ _ _ HS) as HSlt.
-          replace ((S + 4294967296 - E) mod 4294967296) with (S - E) in Hste by lia.
-          destruct (be32_read (S - E) reste ltac:(lia)) as (e & f & g & h & Hbe32 & Hval).
+          replace ((Sp + 4294967296 - Ep) mod 4294967296) with (Sp - Ep) in Hste by lia.
+          destruct (be32_read (Sp - Ep) reste ltac:(lia)) as (e & f & g & h & Hbe32 & Hval).
           rewrite <- !app_assoc in Hste. rewrite Hbe32 in Hste. cbn [be16 app] in Hste.
-          assert (Hrd : read_ext data (P + T + (E - T)) = Ok (lk_type l, S - E)).
-          { unfold read_ext. replace (P + T + (E - T)) with (P + E) by lia. rewrite Hste.
+          assert (Hrd : read_ext data (P + T + (Ep - T)) = Ok (lk_type l, Sp - Ep)).
+          { unfold read_ext. replace (P + T + (Ep - T)) with (P + Ep) by lia. rewrite Hste.
             change (w16 0 1 =? 1) with true. cbv iota. rewrite w16_be16_eq by exact Hty.
             now rewrite Hval. }
-          exists ((lk_type l, S - E) :: exts), (P + T + (E - T) + (S - E) :: ps).
+          exists ((lk_type l, Sp - Ep) :: exts), (P + T + (Ep - T) + (Sp - Ep) :: ps).
           cbn [read_exts resolve_exts]. rewrite Hrd, Hre. cbn [obind].
           rewrite N.eqb_refl, Hres. cbn [obind length].
           repeat split; try (constructor; [reflexivity|exact Hty0]); try lia.
           constructor; [|exact Hps].
           destruct (at_pos _ _ _ _ HS) as (c' & bc' & Hc' & Hb' & Hst').
           rewrite (sub_content i l (N.of_nat j0) b0 c' bc' Hl ltac:(now rewrite Nnat.Nat2N.id) Hc' Hb') in Hst'.
-          replace (P + T + (E - T) + (S - E)) with (P + S) by lia. exact Hst'. }
+          replace (P + T + (Ep - T) + (Sp - Ep)) with (P + Sp) by lia. exact Hst'. }
       destruct (G (lk_subs l) 0%nat ltac:(intros m b Hm'; exact Hm') Hrange)
         as (exts & ps & Hre & Hlen & Hty0 & Hres & Hps).
-      fold offl in Hre, Hres. rewrite Hre. cbn [obind].
-      destruct exts as [|[tp eo] exts']; [rewrite Esubs in Hlen; discriminate|].
+      change (N.of_nat 0) with 0 in Hre, Hres. fold offl in Hre, Hres. rewrite Hre. cbn [obind].
+      destruct exts as [|[tp eo] exts']; [cbn [length] in Hlen; unfold nsubs in Hns0; lia|].
       apply Forall_cons_iff in Hty0. destruct Hty0 as [Htp _]. cbn [fst] in Htp. subst tp.
       replace (lk_type l =? extT) with false by lia.
       rewrite Hres. cbn [obind].
